@@ -74,6 +74,9 @@ func c15Specs() []c15Spec {
 				{"c2", append(append([][]byte{st("u2")}, ext("3:p,c=Q2", "v-two")...), pgproto.Query("1:r,c=T2"))}}},
 		{name: "S-H", desc: "a CancelRequest connection, then two connections of which one registers a private type on its own type map and the other needs that type (type maps must be per connection)",
 			conns: []c15Conn{{"c0", [][]byte{pgproto.CancelRequest(1, 2)}}, {"c1", [][]byte{st("u1"), pgproto.Query("regtype"), pgproto.Query("usetype")}}, {"c2", [][]byte{st("u2"), pgproto.Query("usetype"), pgproto.Query("int4row")}}}},
+		{name: "S-P", desc: "2 connections, each binding an int4[] and a text[] parameter which the statement decodes through the parameters' own decoder (every connection decodes with its own type map)",
+			conns: []c15Conn{{"c1", [][]byte{st("u1"), pgproto.Parse("a", "scanarr"), pgproto.Bind("x", "a", nil, [][]byte{[]byte("{1,2,3}"), []byte("{a,b}")}, nil), pgproto.Execute("x", 0), pgproto.Sync()}},
+				{"c2", [][]byte{st("u2"), pgproto.Parse("a", "scanarr"), pgproto.Bind("x", "a", nil, [][]byte{[]byte("{4,5}"), []byte("{c}")}, nil), pgproto.Execute("x", 0), pgproto.Sync()}}}},
 		{name: "S-T", desc: "two servers in one process, one without and one with certificates; each receives an SSLRequest at the same time (the answer byte belongs to the server that decided it)", secondTLS: true,
 			conns: []c15Conn{{"c1", [][]byte{pgproto.SSLRequest(), st("u1"), pgproto.Query("1:r,c=T1")}}, {"c2", [][]byte{pgproto.SSLRequest()}}}},
 		{name: "S-I", desc: "connection 1's handler waits until connection 2's handler has run (no connection may hold up another one)", dependency: true,
@@ -184,6 +187,26 @@ func c15Run(spec c15Spec, only string, obs *c15Obs) {
 				}
 				return w.Complete("SELECT 1")
 			}, wire.WithColumns(wire.Columns{{Name: "p", Oid: 70000}}))), nil
+		case "scanarr":
+			// a statement that decodes an int4[] and a text[] parameter through the parameter's own decoder (array
+			// codecs memoise their scan plans in the type map they are handed)
+			if r := multi.For(ctx); r != nil {
+				r.Add(script.Ev{Kind: "parse", Query: q})
+			}
+			return wire.Prepared(wire.NewStatement(func(ctx context.Context, w wire.DataWriter, p []wire.Parameter) error {
+				var out []any
+				for i, o := range []uint32{1007, 1009} {
+					vsched.Yield("handler.scan")
+					if i < len(p) {
+						v, err := p[i].Scan(o)
+						out = append(out, fmt.Sprint(v, err))
+					}
+				}
+				if err := w.Row(out); err != nil {
+					return err
+				}
+				return w.Complete("SELECT 1")
+			}, wire.WithColumns(script.TextColumns(2)), wire.WithParameters([]oid.Oid{1007, 1009}))), nil
 		case "wait-for-other", "signal-other":
 			if r := multi.For(ctx); r != nil {
 				r.Add(script.Ev{Kind: "parse", Query: q})
